@@ -293,6 +293,15 @@ def gen_signature_corruptions(rng):
             x = bytearray(base)
             x[i] = v
             ops.append("v2 " + hexs(bytes(x)))
+    # two signature bytes corrupted at once, by the same and by different XOR differences: a
+    # word-wise comparison that folds its partial differences wrongly lets some pairs cancel
+    for i in range(12):
+        for j in range(i + 1, 12):
+            for d1, d2 in ((0x01, 0x01), (0x20, 0x20), (0x80, 0x80), (0xFF, 0xFF), (0x07, 0x70), (0x01, 0x02)):
+                x = bytearray(base)
+                x[i] ^= d1
+                x[j] ^= d2
+                ops.append("v2 " + hexs(bytes(x)))
     for n in range(0, 17):
         ops.append("v2 " + hexs(base[:n]))
         if n < 12:
